@@ -55,6 +55,18 @@ def _flush(ctx, conn):
     ctx.call(conn.flush)
 
 
+def _answer_creates(ctx, ex):
+    """on_wait callback: the link layer answers every outstanding measure-directly create request completely"""
+    from .pipeline import table_entries
+    def on_wait(k):
+        for key, q in table_entries(ex._epr_create_requests):
+            for d in list(q):
+                for i in range(d.pairs_left):
+                    ctx.call(ex._handle_epr_response, LinkLayerOKTypeM(type=ReturnType.OK_M, measurement_outcome=0, measurement_basis=QC.Basis.Z, directionality_flag=0,
+                                                                      sequence_number=i, purpose_id=key[1], remote_node_id=key[0], bell_state=BellState.PHI_PLUS))
+    return on_wait
+
+
 def _check_request(ctx, ex, sid, tp, number, time_unit, max_time, rot_l, rot_r, rb_l, rb_r):
     reqs = ex.network_stack.requests
     ctx.check("exactly-one-request-reaches-the-network-stack", len(reqs) == 1)
@@ -167,6 +179,66 @@ def build():
         drive(ctx, ex, subs[0])
         _check_request(ctx, ex, sid, RequestType.M, n, tu, mt, rl, rr, rbl, rbr)
     R.add("request[create_measure]", kind="lia", samples=120, max_paths=20000)(create_measure)
+
+    def two_requests(ctx):
+        """two create requests in ONE subroutine: each reaches the network stack with ITS OWN parameters (no state carried from one to the next).
+        Parameter values are enumerated (small), so that an implementation that keys something by them stays executable."""
+        vals = [0, 8, 24]
+        conn, ex, epr, subs, sid = _mk(ctx, sock_id=3)
+        params = []
+        for k in range(2):
+            n = ctx.choice(f"number{k}", [1, 2])
+            rl = tuple(ctx.choice(f"rl{k}_{j}", vals) for j in range(3))
+            rr = tuple(ctx.choice(f"rr{k}_{j}", vals) for j in range(3)) if ctx.choice(f"remote_rot{k}", [False, True]) else (0, 0, 0)
+            rbl = ctx.choice(f"rbl{k}", [None, RandomBasis.XZ, RandomBasis.CHSH])
+            rbr = ctx.choice(f"rbr{k}", [None, RandomBasis.XZ])
+            params.append((n, rl, rr, rbl, rbr))
+            ctx.call(epr.create_measure, number=n, rotations_local=rl, rotations_remote=rr, random_basis_local=rbl, random_basis_remote=rbr)
+        _flush(ctx, conn)
+        drive(ctx, ex, subs[0], _answer_creates(ctx, ex))
+        reqs = ex.network_stack.requests
+        ctx.check("both-requests-reach-the-network-stack-in-order", len(reqs) == 2)
+        if len(reqs) != 2:
+            return
+        for k, (n, rl, rr, rbl, rbr) in enumerate(params):
+            r = reqs[k]
+            ctx.check(f"request {k}: number", ctx.eq(r.number, n))
+            ctx.check(f"request {k}: rotations-local", ctx.and_(ctx.eq(r.rotation_X_local1, rl[0]), ctx.eq(r.rotation_Y_local, rl[1]), ctx.eq(r.rotation_X_local2, rl[2])))
+            ctx.check(f"request {k}: rotations-remote", ctx.and_(ctx.eq(r.rotation_X_remote1, rr[0]), ctx.eq(r.rotation_Y_remote, rr[1]), ctx.eq(r.rotation_X_remote2, rr[2])))
+            ctx.check(f"request {k}: random-basis-local", _same_member(ctx, r.random_basis_local, rbl if rbl is not None else RandomBasis.NONE))
+            ctx.check(f"request {k}: random-basis-remote", _same_member(ctx, r.random_basis_remote, rbr if rbr is not None else RandomBasis.NONE))
+    R.add("request[two create_measure requests in one subroutine]", kind="lia", samples=300, max_paths=200000, thorough_only=True,
+          note="exhaustive over the enumerated parameter values (thorough tier); the quick tier runs the sampled native version below")(two_requests)
+
+    def two_requests_sampled(ctx):
+        if True:
+            # a small slice for the quick tier: the second request differs from the first only in WHERE its values sit
+            conn, ex, epr, subs, sid = _mk(ctx, sock_id=3)
+            which = ctx.choice("case", ["local-then-remote rotations", "local-then-remote random basis", "different numbers"])
+            if which == "local-then-remote rotations":
+                a, b = dict(rotations_local=(0, 8, 0)), dict(rotations_remote=(0, 8, 0))
+            elif which == "local-then-remote random basis":
+                a, b = dict(random_basis_local=RandomBasis.XZ), dict(random_basis_remote=RandomBasis.XZ)
+            else:
+                a, b = dict(rotations_local=(8, 0, 0)), dict(rotations_local=(8, 0, 0))
+            na, nb = (2, 2) if which != "different numbers" else (1, 2)
+            ctx.call(epr.create_measure, number=na, **a)
+            ctx.call(epr.create_measure, number=nb, **b)
+            _flush(ctx, conn)
+            drive(ctx, ex, subs[0], _answer_creates(ctx, ex))
+            reqs = ex.network_stack.requests
+            ctx.check("both-requests-reach-the-network-stack-in-order", len(reqs) == 2)
+            if len(reqs) != 2:
+                return
+            for k, (n, kw) in enumerate(((na, a), (nb, b))):
+                r = reqs[k]
+                rl, rr = kw.get("rotations_local", (0, 0, 0)), kw.get("rotations_remote", (0, 0, 0))
+                ctx.check(f"request {k}: number", ctx.eq(r.number, n))
+                ctx.check(f"request {k}: rotations", ctx.and_(ctx.eq(r.rotation_X_local1, rl[0]), ctx.eq(r.rotation_Y_local, rl[1]), ctx.eq(r.rotation_X_local2, rl[2]),
+                                                              ctx.eq(r.rotation_X_remote1, rr[0]), ctx.eq(r.rotation_Y_remote, rr[1]), ctx.eq(r.rotation_X_remote2, rr[2])))
+                ctx.check(f"request {k}: random bases", ctx.and_(_same_member(ctx, r.random_basis_local, kw.get("random_basis_local", RandomBasis.NONE)),
+                                                                  _same_member(ctx, r.random_basis_remote, kw.get("random_basis_remote", RandomBasis.NONE))))
+    R.add("request[two create_measure requests in one subroutine, quick]", kind="lia", samples=60, max_paths=400)(two_requests_sampled)
 
     def create_measure_named_bases(ctx):
         bl = ctx.choice("basis_local", list(EprMeasBasis))
